@@ -30,6 +30,9 @@ type c10Op struct {
 
 type c10X struct {
 	Ops []c10Op `json:"ops"`
+	// ViaShell: the file is (re)opened by a long-lived Shell under one and the same source name
+	// (History.AddFromFile), and written through the source object the Shell has bound
+	ViaShell bool `json:"via_shell,omitempty"`
 }
 
 func (g *Gen) histFileLine() c10Op {
@@ -95,7 +98,7 @@ func genC10(g *Gen, tier string, idx int) *wire.Scenario {
 		ops = append(ops, c10Op{Op: "write", Line: g.histLine(false)})
 	}
 	ops = append(ops, c10Op{Op: "reopen"})
-	sc.X = mustJSON(c10X{Ops: ops})
+	sc.X = mustJSON(c10X{Ops: ops, ViaShell: g.P(30)})
 	sc.Plan = wire.Plan{Policy: "canonical", Class: "S0"}
 	return sc
 }
@@ -131,7 +134,21 @@ func execC10(x *Ctx, sc *wire.Scenario) *wire.Result {
 			failed = true
 		}
 	}
+	var sh *readline.Shell
+	if xx.ViaShell {
+		sh = readline.NewShell()
+		sh.History.Delete()
+	}
 	open := func(what string) readline.History {
+		if sh != nil {
+			sh.History.AddFromFile("file", path)
+			res.Counters["reopened_by_the_same_shell"]++
+			h := sh.History.Current()
+			if h == nil {
+				fail("C10.reopen-never-fails", "reopen-error", what+": the Shell has no history source after AddFromFile")
+			}
+			return h
+		}
 		h, err := readline.NewHistoryFromFile(path)
 		if err != nil {
 			fail("C10.reopen-never-fails", "reopen-error", fmt.Sprintf("%s: reopening the history file failed: %v", what, err))
